@@ -129,12 +129,12 @@ func c18Exec(run *ev.Run, c ev.Case) {
 	prevKind := "start"
 	var trace []string
 	for step := 0; step < h.Steps; step++ {
-		kinds := []string{"dial-ok", "dial-bad", "open-ok", "open-wrongpw", "open-nosuite", "open-garbage", "open-unimplemented", "sl-ok", "sl-busy-ok", "sl-lost-ok", "sl-cc", "sl-ctx-done", "sl-any", "sl-any", "sl-stray-ok"}
+		kinds := []string{"dial-ok", "dial-bad", "open-ok", "open-wrongpw", "open-nosuite", "open-garbage", "open-unimplemented", "sl-ok", "sl-busy-ok", "sl-lost-ok", "sl-cc", "sl-ctx-done", "sl-any", "sl-any", "sl-stray-ok", "dial-odd-timeout", "sl-busy-giveup"}
 		if len(conns) > 0 {
 			kinds = append(kinds, "conn-close")
 		}
 		if sess != nil {
-			kinds = []string{"cmd-ok", "cmd-ok", "cmd-cc", "cmd-busy-ok", "cmd-garbage-ok", "cmd-trunc", "cmd-lost", "cmd-serfail", "cmd-nobody-ok", "close-ok", "close-fail", "sl-ok", "dial-ok", "dial-bad", "cmd-ctx-done", "sl-cc", "cmd-any", "cmd-any", "cmd-any", "sl-any", "sl-stray-ok", "cmd-stray-ok"}
+			kinds = []string{"cmd-ok", "cmd-ok", "cmd-cc", "cmd-busy-ok", "cmd-garbage-ok", "cmd-trunc", "cmd-lost", "cmd-serfail", "cmd-nobody-ok", "close-ok", "close-fail", "sl-ok", "dial-ok", "dial-bad", "cmd-ctx-done", "sl-cc", "cmd-any", "cmd-any", "cmd-any", "sl-any", "sl-stray-ok", "cmd-stray-ok", "cmd-busy-giveup", "dial-odd-timeout"}
 		}
 		kind := kinds[r.Intn(len(kinds))]
 		if r.Intn(70) == 0 {
@@ -202,6 +202,70 @@ func c18Exec(run *ev.Run, c ev.Case) {
 				}
 				model.add("bmc_connections_open", "version=2.0", 1)
 				conns = append(conns, udpConn{srv, st})
+			case "dial-odd-timeout":
+				// a dial with a zero or negative per-request timeout: whether the library accepts
+				// it or refuses it, the counters have to say the same
+				b := refbmc.New(cfg)
+				srv, err := udpbmc.Listen(b)
+				if err != nil {
+					run.Inconclusive("udp listen: " + err.Error())
+					return
+				}
+				st, err := bmc.DialV2(srv.Addr(), bmc.WithTimeout([]time.Duration{0, -time.Second, -1}[r.Intn(3)]))
+				model.add("bmc_connection_open_attempts_total", "version=2.0", 1)
+				if err != nil {
+					model.add("bmc_connection_open_failures_total", "version=2.0", 1)
+					srv.Close()
+					return
+				}
+				model.add("bmc_connections_open", "version=2.0", 1)
+				conns = append(conns, udpConn{srv, st})
+			case "sl-busy-giveup", "cmd-busy-giveup":
+				// the retry policy (not the caller's context) gives up while the BMC is still busy
+				se2 := NewScriptEnv(cfg, memtr.Window)
+				se2.ST = bmc.VerifNewV2SessionlessTransport(se2.T, 5*time.Second, backoff.WithMaxRetries(&backoff.ZeroBackOff{}, uint64(1+r.Intn(3))))
+				var conn bmc.Connection = se2.ST
+				hsSends := 0
+				if kind == "cmd-busy-giveup" {
+					ctx, cancel := bg(10 * time.Second)
+					s2, err := se2.ST.NewV2Session(ctx, &bmc.V2SessionOpts{SessionOpts: bmc.SessionOpts{Username: cfg.Username, Password: cfg.Password, MaxPrivilegeLevel: ipmi.PrivilegeLevelAdministrator}, CipherSuites: []ipmi.CipherSuite{libSuite(su)}})
+					cancel()
+					model.add("bmc_session_open_attempts_total", "", 1)
+					if err != nil {
+						model.add("bmc_session_open_failures_total", "", 1)
+						return
+					}
+					model.add("bmc_sessions_open", "", 1) // never closed: the gauge model keeps it
+					conn = s2
+					hsSends = se2.T.Transmissions()
+				}
+				var cmd ipmi.Command = &ipmi.GetDeviceIDCmd{}
+				okBody := devid
+				if r.Intn(2) == 0 {
+					cmd, okBody = &ipmi.ChassisControlCmd{Req: ipmi.ChassisControlReq{ChassisControl: ipmi.ChassisControlPowerOn}}, nil
+				}
+				outcome := []string{"busy", "tmo"}[r.Intn(2)]
+				st := &scriptState{script: []string{outcome, outcome, outcome, outcome, outcome, outcome, outcome, outcome}, okBody: okBody, minBody: 0}
+				se2.st = st
+				ctx, cancel := bg(10 * time.Second)
+				_, err := conn.SendCommand(ctx, cmd)
+				cancel()
+				se2.st = nil
+				model.add("bmc_command_attempts_total", "command="+cmd.Name(), 1)
+				if err != nil {
+					model.add("bmc_command_failures_total", "command="+cmd.Name(), 1)
+				}
+				if sends := se2.T.Transmissions() - hsSends; sends > 1 {
+					model.add("bmc_command_retries_total", "", float64(sends-1))
+				}
+				for _, a := range st.log {
+					switch a.Outcome {
+					case "busy":
+						model.add("bmc_command_responses_total", lbl(0xc0), 1)
+					case "tmo":
+						model.add("bmc_command_responses_total", lbl(0xc3), 1)
+					}
+				}
 			case "dial-bad":
 				_, err := bmc.DialV2([]string{"127.0.0.1:99999", "127.0.0.1:-1", "127.0.0.1:70000"}[r.Intn(3)])
 				model.add("bmc_connection_open_attempts_total", "version=2.0", 1)
